@@ -340,46 +340,68 @@ let idx_machine (dyn : bool) : machine =
 (* ---------------------------------------------------------------- NameSet *)
 let name_machine () : machine =
   let st = ref (Model.ds_init Model.Z0 (zi 2)) in
+  let nm = ref (Model.nm_init (zi 2) (zi 8)) in
+  (* every string is read back from the model's string memory *)
+  let show id =
+    let cs = Model.nm_name !nm id in
+    if cs = [] then "_" else String.concat "" (List.map (fun c -> let c = iz c in if c >= 97 && c <= 122 then String.make 1 (Char.chr c) else "?") cs) in
   let dump () =
     let s = !st in
     let abs = Model.ds_abs Model.Z0 s in
-    Printf.sprintf "num=%s max=%s size=%s names=%s keys=%s look=%s" (zs s.Model.thenum) (zs s.Model.themax) (zs s.Model.thesize)
-      (clist (fun (_, n) -> zs n) abs) (clist (fun (k, _) -> zs k) abs)
-      (String.concat "" (List.init 8 (fun id ->
+    let size = iz s.Model.thesize in
+    Printf.sprintf "num=%s max=%s size=%s mem=%s/%s names=%s keys=%s bykey=%s look=%s" (zs s.Model.thenum) (zs s.Model.themax) (zs s.Model.thesize)
+      (zs !nm.Model.nm_used) (zs !nm.Model.nm_max)
+      (clist (fun (_, n) -> show n) abs) (clist (fun (k, _) -> zs k) abs)
+      (String.concat "" (List.init size (fun i ->
+           let k = zi i in
+           if Model.ds_has_key s k then
+             (match Model.ds_number s k with Some n -> zs n | None -> "?") ^ ":" ^ show (Model.getn Model.Z0 s.Model.data k) ^ ","
+           else "x,")))
+      (String.concat "" (List.init 12 (fun id ->
            let id = zi id in
            if Model.ns_has s id then
              let k = Model.ns_key s id in
-             Printf.sprintf "%s:%s:%s," (zs (Model.ns_number s id)) (zs k) (zs (Model.getn Model.Z0 s.Model.data k))
+             Printf.sprintf "%s:%s:%s," (zs (Model.ns_number s id)) (zs k) (show (Model.getn Model.Z0 s.Model.data k))
            else "-:-1:-1,"))) in
   let init t =
     let m = match t with _ :: _ :: _ :: m :: _ -> int_of_string m | _ -> 2 in
-    st := Model.ds_init Model.Z0 (zi m); dump () in
+    let mm = match t with _ :: _ :: _ :: _ :: mm :: _ -> int_of_string mm | _ -> 8 in
+    st := Model.ds_init Model.Z0 (zi m);
+    nm := Model.nm_init !st.Model.themax (zi mm);
+    dump () in
   let distinct l = List.length (List.sort_uniq compare l) = List.length l in
   let op t =
     let c = List.hd t and a = List.tl t in
     let s = !st in
     let ret = ref "-" in
     let valid_key k = k >= 0 && k < iz s.Model.thesize && Model.ds_has_key s (zi k) in
+    (* removals: the set changes, the string memory only forgets the removed names *)
+    let removed s' = st := s'; nm := Model.nm_keep (Model.ns_names s') !nm in
     (match c, a with
      | "add", [id] ->
-       let (s', k) = Model.ns_add s (zi (int_of_string id)) in
-       st := s'; ret := (match k with Some k -> "key:" ^ zs k | None -> "none")
-     | "rmname", [id] -> st := Model.ns_remove_name s (zi (int_of_string id))
-     | "rmnum", [n] -> if Model.ds_has_num s (zi (int_of_string n)) then st := Model.ns_remove_num s (zi (int_of_string n)) else ret := "skip"
+       let id = zi (int_of_string id) in
+       let (s', k) = Model.ns_add s id in
+       (match k with
+        | Some k -> nm := Model.nm_add (Model.ns_names s) !nm id; ret := "key:" ^ zs k
+        | None -> ret := "none");
+       st := s'
+     | "rmname", [id] -> removed (Model.ns_remove_name s (zi (int_of_string id)))
+     | "rmnum", [n] -> if Model.ds_has_num s (zi (int_of_string n)) then removed (Model.ns_remove_num s (zi (int_of_string n))) else ret := "skip"
      | "rmkey", [k] ->
-       if valid_key (int_of_string k) then st := Model.ns_remove_keys s [zi (int_of_string k)] else ret := "skip"
+       if valid_key (int_of_string k) then removed (Model.ns_remove_keys s [zi (int_of_string k)]) else ret := "skip"
      | "rmnums", vs ->
        let v = List.map int_of_string vs in
-       if distinct v && List.for_all (fun n -> Model.ds_has_num s (zi n)) v then st := Model.ns_remove_nums s (List.map zi v)
+       if distinct v && List.for_all (fun n -> Model.ds_has_num s (zi n)) v then removed (Model.ns_remove_nums s (List.map zi v))
        else ret := "skip"
      | "rmkeys", vs ->
        let v = List.map int_of_string vs in
-       if distinct v && List.for_all valid_key v then st := Model.ns_remove_keys s (List.map zi v) else ret := "skip"
+       if distinct v && List.for_all valid_key v then removed (Model.ns_remove_keys s (List.map zi v)) else ret := "skip"
      | "rmp", vs ->
-       let (s', p) = Model.ns_remove_perm s (Model.pad_perm s (ints vs)) in st := s'; ret := "perm:" ^ clist zs p
-     | "clear", [] -> st := Model.ns_clear s
+       let (s', p) = Model.ns_remove_perm s (Model.pad_perm s (ints vs)) in removed s'; ret := "perm:" ^ clist zs p
+     | "clear", [] -> st := Model.ns_clear s; nm := Model.nm_clear !nm
      | "remax", [m] -> st := Model.ns_remax s (zi (int_of_string m))
-     | "memremax", [_] | "mempack", [] -> ()
+     | "memremax", [m] -> nm := Model.nm_remax !nm (zi (int_of_string m))
+     | "mempack", [] -> nm := Model.nm_pack (Model.ns_names s) !nm
      | _ -> ret := "unknown");
     c ^ " ret=" ^ !ret ^ " " ^ dump () in
   { init; op }
